@@ -318,7 +318,9 @@ class SmtLibScript(object):
                             goal.soft = goal.soft[:l]
                     for k in goals_to_remove:
                         del max_smt_goals[k]
-                        del max_smt_goals_backtrack[k]
+                        # Note: there is no backtrack list if the goal
+                        # has been created after the last push
+                        max_smt_goals_backtrack.pop(k, None)
             elif cmd.name == smtcmd.MAXIMIZE:
                 goals.append(MaximizationGoal(cmd.args[0], _command_is_signed(cmd)))
             elif cmd.name == smtcmd.MINIMIZE:
